@@ -9,8 +9,11 @@ EXTENDS Device, TLC, Json, IOUtils
 Recs == ndJsonDeserialize(IOEnv.TRACE_FILE)
 Aux == JsonDeserialize(IOEnv.AUX_FILE)
 VARIABLE i
-IsNav(RB, cmds, p) == \/ (RB.exit # "" /\ p[Len(p)] = <<RB.exit>>)
-                      \/ \E k \in DOMAIN cmds : Len(cmds[k]) = Len(p) + 1 /\ SubSeq(cmds[k], 1, Len(p)) = p
+\* navigation: a block exit, the header of a block some other command goes into, or -- for vendors without an exit word, where an
+\* entered-and-left block leaves no second line -- the bare header of a block the device already has
+IsNav(RB, dev, cmds, p) == \/ (RB.exit # "" /\ p[Len(p)] = <<RB.exit>>)
+                           \/ \E k \in DOMAIN cmds : Len(cmds[k]) = Len(p) + 1 /\ SubSeq(cmds[k], 1, Len(p)) = p
+                           \/ (RB.exit = "" /\ PresentPath(dev, p) /\ KidsAt(dev, p) # <<>>)
 VerdictApply(r) ==
   LET RB == Aux.rbs[r.rb]
       dev == ExecAll(RB, r.old, r.cmds)
@@ -22,7 +25,7 @@ VerdictSecond(r) ==
   IN <<(IF strict THEN (IF r.diff2 # <<>> THEN "second-diff-not-empty"
                         ELSE IF r.cmds2 # <<>> THEN "second-patch-has-commands" ELSE "ok")
         ELSE IF Canon(ExecAll(RB, r.dev, r.cmds2)) # Canon(r.dev) THEN "second-patch-has-effect"
-        ELSE IF \E k \in DOMAIN r.cmds2 : ~IsNav(RB, r.cmds2, r.cmds2[k]) THEN "second-patch-has-commands"
+        ELSE IF \E k \in DOMAIN r.cmds2 : ~IsNav(RB, r.dev, r.cmds2, r.cmds2[k]) THEN "second-patch-has-commands"
         ELSE "ok"), "">>
 Verdict(r) == IF r.kind = "apply" THEN VerdictApply(r) ELSE VerdictSecond(r)
 Init == i = 0
